@@ -21,6 +21,7 @@ structure DState where
   recvDead : Bool := false
   send : Option Send.State := none
   sendDead : Bool := false
+  fsState : Fs.FS := []
 
 def fmtPairs (l : List (Nat × Nat)) : String :=
   "[" ++ ",".intercalate (l.map (fun p => s!"{p.1}-{p.2}")) ++ "]"
@@ -424,6 +425,24 @@ def sendStep (st : DState) (toks : List String) : DState × String :=
       | _, _ => (st, "bad-op")
   | _ => (st, "bad-op")
 
+
+/-- `ROOT…` names stand for the filestore root: the model's root is `Fs.modelRoot` -/
+def fsName (b : Codec.Bytes) : Codec.Bytes :=
+  let root := "ROOT".toUTF8.toList
+  if List.take 4 b == root then Fs.charsToBytes Fs.modelRoot ++ List.drop 4 b else b
+
+open TxnFmt in
+def fsStep (st : DState) (toks : List String) : DState × String :=
+  match toks with
+  | ["new"] => ({ st with fsState := initFs }, s!"ok fs={fsListing initFs}")
+  | ["req", code, n1, n2] =>
+    match code.toNat?.bind Gen.FileStoreAction.ofNat?, unhex n1, unhex n2 with
+    | some a, some b1, some b2 =>
+      let r := Fs.processRequest st.fsState { action := a, name1 := fsName b1, name2 := fsName b2 }
+      ({ st with fsState := r.2 }, s!"status={r.1} fs={fsListing r.2}")
+    | _, _, _ => (st, "bad-op")
+  | _ => (st, "bad-op")
+
 def step (st : DState) (line : String) : DState × String :=
   match (line.splitOn " ").filter (· ≠ "") with
   | "seg" :: rest => segStep st rest
@@ -431,6 +450,7 @@ def step (st : DState) (line : String) : DState × String :=
   | "path" :: rest => (st, pathStep rest)
   | "codec" :: rest => (st, codecStep rest)
   | "udp" :: rest => udpStep st rest
+  | "fs" :: rest => fsStep st rest
   | "recv" :: rest => recvStep st rest
   | "send" :: rest => sendStep st rest
   | _ => (st, "bad-op")
